@@ -10,9 +10,9 @@ CHECKS = {
          "Structural necessary conditions, decided exhaustively over the paths of package seq: every exported combinator is abstractly evaluated on symbolic arguments and the traces of thunk/cond/post/continuation calls and c.step stores are compared with the reference semantics of the property for all 4 signals x nil-ness of cond/post x cond answers x 5 body behaviours x resumptions x a second run of the same Seq. A change to the runtime that alters any of these tables is reported with the offending trace.",
          "Decides the combinators' own code, not Seq values written by users; continuations are assumed to be used linearly by the Seq arguments; Go closure semantics and go/ssa are trusted; numeric stack bounds are C17.",
          "DESIGN.md §4 C08"),
- "C09": ("finite-domain abstract interpretation of the generator methods; protocol tables vs reference",
-         "Every clause of the iterator protocol is a row of a table extracted from the source: MoveNext/Send/Current/Result of the concrete type returned by seq.Start are abstractly evaluated for every combination of started x pending resumption nil/non-nil x nil/non-nil step of each resumption; calls made, final field contents and results are compared with the reference protocol.",
-         "Assumes a non-nil step carries a non-nil resumption (established for Bind/BindRecv by SEQ.SUSPEND in the same run); Go semantics and go/ssa trusted.",
+ "C09": ("finite-domain abstract interpretation of seq.Start and the iterator methods, driven through every operation history up to a depth bound with the generator body as a two-valued oracle; conformance with the reference protocol",
+         "The iterator returned by seq.Start(opaque body) is abstractly driven through every sequence of MoveNext/Send/Current/Result up to length 5 (8 thorough), the body yielding (pending step stored as Bind does) or returning at every step; after each operation the returned values and which generator code ran with which received value are compared with the protocol of the property. Independent of the generator's representation.",
+         "The oracle models generator bodies that suspend through Bind/BindRecv's mechanism (established by SEQ.SUSPEND in the same run); histories longer than the bound are covered through merging of equal abstract states, not enumerated; Go semantics and go/ssa trusted.",
          "DESIGN.md §4 C09"),
  "C14": ("resolved-program scan (package state, stores through captured variables) + abstract second-run check",
          "Decides the structural cause of independence: no package-level state touched by runtime code; no closure of a Seq constructor assigns a variable living outside the returned Seq; Start allocates generator and coroutine state per call; a second run of the same loop Seq starts from scratch; the rewriter never introduces declarations.",
@@ -34,7 +34,7 @@ CHECKS = {
          "Decides the structural core of 'rejected or preserved, never silently mistranslated': unsupported kinds are rejected on every path; every original part that can contain a yield and still reaches the output is covered by a yield-freeness test answered true on its path (so no Yield can survive as a no-op stub); every nested statement list that reaches the output went through the rewriter's recursion (so nested unsupported constructs were seen); the branch pass keeps/replaces/rejects break/continue/fallthrough/goto exactly per the Go spec's target rule for all context nestings up to depth 3, with balanced context stacks; functions are marked as generators only after the signature check.",
          "Relies on go/ast grammar facts (init/post are simple statements, switch bodies hold case clauses); the oracles mustNoYield/containsYield are trusted to mean yield-freeness (their own traversal is checked under C13's guard rule); behaviour of accepted programs is C01-C06.",
          "DESIGN.md §4 C12"),
- "C01": ("decision-table extraction by abstract interpretation (block tables, termination checker vs spec reference on enumerated shapes, branch pass driven over context nestings), lowering-vs-runtime signal agreement",
+ "C01": ("decision-table extraction by abstract interpretation (block tables, termination checker vs spec reference on enumerated shapes, branch pass driven over context nestings), lowering-vs-runtime signal agreement, no-loss and template rules on the symbolic rewriting of every statement kind",
          "Whole-program equivalence is not decided. Decided, for every path of the code that implements them: the combine / implicit-Normal / yield-freeness tables of the block abstraction; the break/continue pass against the Go spec's target rule for every nesting of native contexts up to depth 3; the termination checker never over-approximates the spec's 'terminating statements' on ~2000 enumerated shapes; Loop/While/For choice and argument roles; the lowering of every break/continue target agrees with the signal tables extracted from the runtime in the same run; plus the runtime tables of C08.",
          "Known findings D18 (break after a yield inside a switch case) and D19 (continue with a yielding for-post) are recorded in known_findings.json; Go closure semantics, go/ssa and go/ast grammar facts are trusted.",
          "DESIGN.md §4 C01"),
@@ -58,7 +58,7 @@ CHECKS = {
          "Decides the structural reasons nothing runs early, late or twice: constructors run nothing; Bind suspends; resumptions run the thunk once inside the advance; Start runs nothing; exhaustion is absorbing; the generator body is exactly Start(Delay(thunk)); the continuation after a yield is the Bind thunk and the yielded expression its unwrapped first argument; loop cond/post/body and both Combine halves are thunks; a Delay is only elided around certified effect-free constructors or Bind with a basic literal.",
          "Relative timing of effects inside one user expression is Go's evaluation order (trusted); pattern-combinator semantics trusted.",
          "DESIGN.md §4 C02"),
- "C07": ("pattern-term extraction of optimizeDelayCall checked against certification of package seq; table extraction of the eta-reduction callback over closure shapes x callee classes; per-file step order",
+ "C07": ("pattern-term extraction of optimizeDelayCall checked against certification of package seq; table extraction of the eta-reduction callback over closure shapes x callee classes; call-graph inventory of rewrite rules; per-file step order (two-file drive)",
          "Decides the side conditions of both optimisations from their source: Delay elision only under certified effect-free constructors / Bind(basic literal), on thunks consisting of the single return; eta reduction keeps the closure on all 18 meaning-changing rows (mutable function variable, method value on user variable, builtin, conversion, generic function with inferred arguments, swapped/duplicated/dropped arguments, differing types, variadic slice passing); imports cleaned before printing; files not using seq are not written.",
          "go-imports and the pattern-combinator library are trusted; observational equality of the two stages on all programs is not decided.",
          "DESIGN.md §4 C07"),
